@@ -443,6 +443,11 @@ func (p *Proof) ProvesStatement(sign int, factor uint, bound *big.Int) bool {
 		return false
 	}
 	if len(p.Cs) == 3 {
+		// Three-square proofs only exist for factor 1 (see NewProofStructure); refusing any other
+		// factor also keeps the rescaling below from overflowing.
+		if factor != 1 {
+			return false
+		}
 		factor *= 4
 		bound = new(big.Int).Mul(bound, big.NewInt(4))
 		bound.Sub(bound, big.NewInt(2))
